@@ -120,6 +120,16 @@ class C05(Check):
                 add(d, "multi")
         for d in self.liars():
             add(d, "liar")
+        # AES entries whose declared compressed size is smaller than, equal to, or just above salt + verifier + MAC
+        for strength, sl in ((1, 8), (2, 12), (3, 16)):
+            for ver in (1, 2):
+                data, man = genzip.build([Entry(b"a", b"0123456789abcdef0123", password=b"pw", aes=(ver, strength, bytes(range(sl))))])
+                m = man["entries"][0]
+                for sz in (range(0, sl + 12 + 6) if not quick else (0, 1, sl + 1, sl + 2, sl + 3, sl + 7, sl + 11, sl + 12, sl + 13)):
+                    d = bytearray(data)
+                    d[m["central_start"] + 20:m["central_start"] + 24] = sz.to_bytes(4, "little")
+                    d[m["header_start"] + 18:m["header_start"] + 22] = sz.to_bytes(4, "little")
+                    add(d, "aes-size")
         for _ in range(200 if quick else 20000):
             n = r.choice([0, 1, 21, 22, 23, 46, 100, 300])
             d = bytearray(r.randrange(256) for _ in range(n))
